@@ -125,11 +125,13 @@ static bool Point(int kind, const void * obj, const volatile unsigned int * cnt,
    const int me = t_tid; Thr & t = S->thr[me];
    t.pendKind = kind; t.pendObj = obj; t.pendCount = cnt; t.pendFd = fd; t.pendTimed = timed; t.pendTarget = target; t.pendTag = tag; t.chosenTimeout = false;
    if (++S->points > S->maxPoints) { if (!S->failed) { S->failed = true; S->failKey = "livelock"; S->failMsg = verif::Fmt("more than %u scheduling points in one execution:", S->maxPoints) + DescribeThreads(); } Report("LIVELOCK", true); }
+   bool failNow = false;
    if ((kind == PK_WAIT || kind == PK_SOCK) && !S->failed) {
       // callKind: 1 = try call, 2 = finite-deadline call, 3 = finite-deadline call that is a read->write UPGRADE, 4 = try call that is an upgrade
-      if (t.callKind == 1 || t.callKind == 4) { S->failed = true; S->failKey = (t.callKind == 4) ? "wait-in-try-upgrade" : "wait-in-try-call"; S->failMsg = verif::Fmt("T%d reached a %s wait point inside a call documented as non-blocking (try / zero timeout)", me, timed ? "timed" : "UNTIMED"); }
-      else if ((t.callKind == 2 || t.callKind == 3) && !timed) { S->failed = true; S->failKey = (t.callKind == 3) ? "untimed-wait-in-timed-upgrade" : "untimed-wait-in-deadline-call"; S->failMsg = verif::Fmt("T%d reached an UNTIMED wait point inside a call made with a finite deadline%s", me, t.callKind == 3 ? " (read->write upgrade)" : ""); }
+      if (t.callKind == 1 || t.callKind == 4) { S->failed = true; failNow = true; S->failKey = (t.callKind == 4) ? "wait-in-try-upgrade" : "wait-in-try-call"; S->failMsg = verif::Fmt("T%d reached a %s wait point inside a call documented as non-blocking (try / zero timeout)", me, timed ? "timed" : "UNTIMED"); }
+      else if ((t.callKind == 2 || t.callKind == 3) && !timed) { S->failed = true; failNow = true; S->failKey = (t.callKind == 3) ? "untimed-wait-in-timed-upgrade" : "untimed-wait-in-deadline-call"; S->failMsg = verif::Fmt("T%d reached an UNTIMED wait point inside a call made with a finite deadline%s", me, t.callKind == 3 ? " (read->write upgrade)" : ""); }
    }
+   if (failNow) Report("VIOLATION", true);
    const int next = Schedule(me);
    if (next != me) { S->current = next; FutexWake(&S->thr[next].go); FutexWait(&t.go); }
    // we hold the token again: apply the model effect of our operation
@@ -224,6 +226,9 @@ void Fail(const std::string & key, const std::string & msg)
    if (!S) return;
    if (!S->active) { std::lock_guard<std::mutex> g(S->freeLock); if (!S->failed) { S->failed = true; S->failKey = key; S->failMsg = msg; } return; }   // free run: only on the failure path
    if (!S->failed) { S->failed = true; S->failKey = key; S->failMsg = msg; }
+   // A failed execution is reported at once and never continued: what follows a violated invariant (use of a freed object, a second failure ...)
+   // need not be deterministic, and the first failure is the one with the shortest schedule.
+   Report("VIOLATION", true);
 }
 void Observe(const std::string & s) { if (S && S->active) {   // (no-op in a free run: the harness must not add sharing of its own)
    S->observation += s; S->observation += ';'; } }
@@ -241,12 +246,13 @@ static void InitSched(bool active)
    memset(S->thr, 0, sizeof(S->thr));
 }
 
+static bool g_ignoreFreeRunFailures = false;
 void FreeRun(const std::function<void()> & body, int iterations)
 {
    for (int i = 0; i < iterations; i++) {
       InitSched(false); body();
       for (size_t k = 0; k < S->freeThreads.size(); k++) { if (S->freeThreads[k]->joinable()) S->freeThreads[k]->join(); delete S->freeThreads[k]; }
-      if (S->failed) { fprintf(stderr, "FREERUN-VIOLATION %s %s\n", S->failKey.c_str(), S->failMsg.c_str()); fflush(stderr); _exit(1); }
+      if (S->failed && !g_ignoreFreeRunFailures) { fprintf(stderr, "FREERUN-VIOLATION %s %s\n", S->failKey.c_str(), S->failMsg.c_str()); fflush(stderr); _exit(1); }
    }
 }
 
@@ -282,7 +288,7 @@ void FreeRunPart(const std::string & partName, const BodyFactory & factory, cons
 // Every process that runs scheduled executions first runs the body ONCE free (no scheduler): muscle initialises some process-wide
 // objects lazily under a Mutex on first use (one extra lock point in the first execution only), and executions must not depend on
 // whether they are the first one in their process.  Replays and explorer workers do the same, so all modes agree.
-static void WarmUp(const std::function<void()> & body) { FreeRun(body, 1); }
+static void WarmUp(const std::function<void()> & body) { g_ignoreFreeRunFailures = true; FreeRun(body, 1); g_ignoreFreeRunFailures = false; }   // only its side effect on process-wide state matters; its verdict is ignored
 
 // ---------------------------------------------------------------- one execution (child side)
 static void ChildMain(const std::function<void()> & body, const std::vector<unsigned char> & choices, const Options & opt, int reportFd, bool framed)
@@ -435,7 +441,7 @@ void Explore(const std::string & partName, const std::string & configArgs, const
    std::vector<std::vector<unsigned char> > work; work.push_back(std::vector<unsigned char>());
    unsigned long executions = 0, totalPoints = 0, totalChoicePoints = 0; unsigned long perBound[8] = {0, 0, 0, 0, 0, 0, 0, 0};
    std::set<verif::Hash128> observations; std::map<std::string, unsigned long> statusCounts; std::map<std::string, int> perKey; std::map<std::string, unsigned long> keyCounts;
-   std::vector<std::string> notes; bool capped = false; std::string cap; unsigned long maxPointsSeen = 0; size_t nbusy = 0; unsigned long failingExecutions = 0;
+   std::vector<std::string> notes; bool capped = false; std::string cap; unsigned long maxPointsSeen = 0; size_t nbusy = 0; unsigned long failingExecutions = 0; std::map<std::string, int> retries;
    std::vector<std::string> samples;
    while (!work.empty() || nbusy > 0) {
       for (size_t w = 0; w < g_pool.size() && !work.empty(); w++) if (!g_pool[w].busy) {
@@ -485,6 +491,13 @@ void Explore(const std::string & partName, const std::string & configArgs, const
                // replay twice: identical status, key and observation required before the failure is believed
                const std::vector<unsigned char> & ch = o.taken.size() ? o.taken : prefix;
                Outcome r1 = RunOne(body, ch, opt), r2 = RunOne(body, ch, opt);
+               if (o.status == "CRASH" && r1.status == r2.status && r1.key == r2.key && r1.observation == r2.observation && r1.status != "CRASH" && retries[ChoicesToString(prefix)]++ < 3) {
+                  // The worker process died but the same schedule behaves identically (and differently) in two fresh processes: the death happened outside the
+                  // scheduled execution (in the worker's free warm-up run, i.e. under real concurrency).  Not attributable to this schedule: run it again.
+                  perKey[key]--; keyCounts[key]--; failingExecutions--; executions--; statusCounts[o.status]--; work.push_back(prefix);
+                  if (notes.size() < 20) notes.push_back("a worker died during its free warm-up run (" + o.msg.substr(0, 160) + "); schedule re-queued");
+                  continue;
+               }
                if (r1.status != o.status || r2.status != o.status || r1.key != o.key || r2.key != o.key || r1.observation != o.observation || r2.observation != o.observation)
                   res.infra_errors.push_back(partName + ": failing schedule is not reproducible (" + o.status + "/" + r1.status + "/" + r2.status + ") config=" + configArgs + " choices=" + ChoicesToString(ch));
                else if (o.status == "HANG") res.infra_errors.push_back(partName + ": execution hangs in real time (unhooked blocking operation?) config=" + configArgs + " choices=" + ChoicesToString(prefix));
